@@ -77,8 +77,8 @@ def run(R):
                  % (json.dumps(dist.get("code_variant")), total), not mism,
                  "first mismatching histories: " + json.dumps([brief(cases[i]) for i in mism[:3]])[:6000])
         cv = dist.get("code_variant") or {}
-        R.oblige("the tree as it is is the repaired variant (raw Ethereum sender compared with the signer; remaining signers verified after an Ethereum-path success): headline theorem C02_accept_authorised applies",
-                 bool(cv.get("raw_eth_sender_checked")) and bool(cv.get("eth_path_continues_with_remaining_signers")), json.dumps(cv))
+        R.oblige("the tree as it is is the repaired variant (raw Ethereum sender compared with the signer; remaining signers verified after an Ethereum-path success; exactly-one-message rule on the EIP-712 and on the raw Ethereum branch): headline theorem C02_accept_authorised applies",
+                 all(cv.get(k) for k in ("raw_eth_sender_checked", "eth_path_continues_with_remaining_signers", "eip712_single_message_rule", "raw_eth_single_message_rule")), json.dumps(cv))
         acc = dist["by"].get("first:accepted", 0)
         R.oblige("generator sanity: both accepted and rejected transactions occur", acc > 20 and dist["by"].get("first:rejected", 0) > 20, json.dumps(dist["by"]))
         report(R, cases, viol)
